@@ -34,6 +34,18 @@ CLAIMED = {
              text="The grouping call is judged against the model's recovery verdict for every enumerated collection (counts around the threshold, mixtures, wrong epoch) and the creation call against the core derivation.",
              note="Native call of the rlib, not a WASM runtime; epochs restricted to UTF-8 by the API.",
              ref="5/C17"),
+ "C02": dict(level="model_checking", technique="TLC on MC_Star: NoSubThresholdRecovery over all inbox sequences with forged thresholds/duplicates/foreign shares, knowledge-closure secrecy over all observation subsets; behaviours replayed on real shares; byte scan of encoded reports; TLC-verified polynomial certificate over Fp129 (Trace_Shamir); exhaustive perfect secrecy over GF(5), GF(7)",
+             text="Recovery refusal below threshold is an invariant of the symbolic model enumerated over all small collections and executed on the real crates; the structural secrecy claims are decided by a derivation closure in the model and by byte scans plus a TLC-checked exact-degree certificate on the real shares.",
+             note="Confidentiality is structural (ideal primitives): which values are visible or derivable, not a cryptographic reduction. Certificate thresholds up to 16 (quick) / 64 (thorough).",
+             ref="5/C02"),
+ "C06": dict(level="exploration", technique="Shamir.tla model-checked exhaustively over GF(5), GF(7), GF(13) against Lagrange interpolation; the same operators instantiated over Fp129.tla re-evaluate every logged deal/share/recover call of star_sharks (Trace_Shamir, TLC as independent big-integer implementation)",
+             text="Differential testing of the real dealer/evaluator/recover against an independent TLA+ model evaluated by TLC on boundary-valued secrets, structured random sources and all selection shapes, with the model itself validated exhaustively on small fields.",
+             note="TLC oracle up to threshold 24 (quick) / 96 (thorough); t = 200, 600 round-trip and refusal only. Operand values are sampled.",
+             ref="5/C06"),
+ "C07": dict(level="exploration", technique="Fp129.tla (base-256 limb arithmetic mod 2^128+12451, self-checked against native integers and ring axioms) evaluated by TLC on every logged Fp operation, encoding and published constant (Trace_Field)",
+             text="TLC acts as the independent big-integer implementation: every recorded add/sub/neg/double/mul/square/invert/pow/sqrt/from_repr/to_repr call on lattice-crossed and uniform operands is recomputed, and the constants are checked against their defining equations.",
+             note="2^258 operand pairs are sampled (boundary lattice squared + seeded uniform); (p-1)/2 prime is trusted for the generator criterion.",
+             ref="5/C07"),
 }
 NA_REASON = "check not built yet in this round (planned: see DESIGN.md section 5); not claimed until its machinery exists"
 
